@@ -415,7 +415,7 @@ func rulesC06(c *Ctx) {
 		c.Floor("C06.e", "state events raised on timeout", len(evCalls), 1)
 		// every append to a release list is guarded by a successful SetReleased on the same allocation
 		napp := 0
-		ast.Inspect(fn.Decl.Body, func(n ast.Node) bool {
+		p.InspectDeep(fn, func(n ast.Node) bool {
 			call, ok := n.(*ast.CallExpr)
 			if !ok || len(call.Args) != 2 {
 				return true
@@ -517,7 +517,7 @@ func rulesC06(c *Ctx) {
 		for _, fld := range []string{"allocations", "allocatedResource", "allocatedPlaceholder"} {
 			found := false
 			for _, w := range p.FieldWrites(p.Field("objects.Application." + fld)) {
-				if w.Fn == fn && w.Kind == "assign" {
+				if p.inFn(w.Fn, fn) && w.Kind == "assign" {
 					if call, ok := unparen(w.Arg).(*ast.CallExpr); ok && (p.IsCall(call, "resources.NewResource") || p.Src(call.Fun) == "make") {
 						// unconditional: top-level statement of the body
 						if p.Parent(w.Node) == ast.Node(fn.Decl.Body) {
